@@ -155,9 +155,11 @@ theorem step_job_run {s s' : State} {op : Op} {o : Out} (h : step s op = .ok (s'
       have h1 : Job.step s.job (.submit job mf desc) = .ok (j', evs) := by simp [Job.step, hj, Except.map]
       split at h
       · split at h
-        · obtain ⟨evs2, e, hr⟩ := coreStep_job_run h
-          rw [e]
-          exact single _ _ _ h1 _ _ _ hr
+        · split at h
+          · cases h; exact (single _ _ _ h1 [] _ [] rfl).trans (by simp)
+          · obtain ⟨evs2, e, hr⟩ := coreStep_job_run h
+            rw [e]
+            exact single _ _ _ h1 _ _ _ hr
         · cases h
       all_goals (cases h; exact (single _ _ _ h1 [] _ [] rfl).trans (by simp))
   | cancel j ids =>
@@ -240,7 +242,9 @@ theorem step_core_step {s s' : State} {op : Op} {o : Out} (h : step s op = .ok (
     · cases h
     · split at h
       · split at h
-        · exact .inr ⟨_, rfl, core _ _ _ _ _ h⟩
+        · split at h
+          · cases h; exact .inl ⟨rfl, rfl, rfl⟩
+          · exact .inr ⟨_, rfl, core _ _ _ _ _ h⟩
         · cases h
       all_goals (cases h; exact .inl ⟨rfl, rfl, rfl⟩)
   | cancel j ids =>
